@@ -323,6 +323,9 @@ func (p *sparser) parseBin(minPrec int) SExpr {
 
 func (p *sparser) parseUnary() SExpr {
 	t := p.peek()
+	if t.kind == "id" && (t.val == "forall" || t.val == "exists") {
+		return p.parseExpr()
+	}
 	if t.kind == "op" && (t.val == "!" || t.val == "-" || t.val == "^" || t.val == "*" || t.val == "&") {
 		p.next()
 		return SUnary{t.val, p.parseUnary()}
